@@ -48,7 +48,7 @@ class World:
 
 def step(w, ri, tg):
     rng = w.rng
-    kind = rng.choice(["create", "create_id", "create_setter", "replace_rejected", "copy", "copy_leaf_history", "json", "xml", "attach", "remove", "replace", "replace_keep", "prune", "expand", "delete", "delete_nochildren"])
+    kind = rng.choice(["create", "create_id", "create_setter", "replace_rejected", "copy", "copy_leaf_history", "json", "json_foreign", "xml", "attach", "remove", "replace", "replace_keep", "prune", "expand", "delete", "delete_nochildren"])
     nodes = w.all_nodes()
     if kind == "create":
         n = Node(rng.choice(["title", "para", "zz"]), content=rng.choice([None, "x"]))
@@ -109,6 +109,27 @@ def step(w, ri, tg):
         for n in walk(src):
             Node.store.pop(n.id, None)          # undo the scratch build so that the history has no deliberate id reuse
         w.add_tree(metapype_io.from_json(js))
+    elif kind == "json_foreign":
+        # a document written elsewhere: its ids are whatever that process generated (small integers, counters, other uuids);
+        # unique within this history (a per-history serial keeps them apart).  The layout is taken from a document the codec itself
+        # wrote, only the ids are replaced.
+        w.fserial = getattr(w, "fserial", 0)
+        src = impl.build(impl.T("creator", None, [impl.T("individualName", None, [impl.T("surName", "x")]), impl.T("electronicMailAddress", "a@b.c")]))
+        js = json.loads(metapype_io.to_json(src))
+        for n in walk(src):
+            Node.store.pop(n.id, None)          # undo the scratch build
+        style = rng.choice(["int", "ext", "uuid"])       # ("n<k>" is what impl.build itself hands out in this harness: not used here)
+        def renum(d):
+            for nm, body in d.items():
+                for f in body:
+                    if "id" in f:
+                        w.fserial += 1
+                        f["id"] = str(w.fserial) if style == "int" else (f"ext-{w.fserial}" if style == "ext" else f"00000000-0000-11ee-8000-{w.fserial:012x}")
+                    if "children" in f:
+                        for k in f["children"]:
+                            renum(k)
+        renum(js)
+        w.add_tree(metapype_io.from_json(json.dumps(js)))
     elif kind == "xml":
         xml = rng.choice(["<a><b>t</b><!--c--><c x='1'/></a>", "<eml:eml xmlns:eml='u'><dataset><title>T</title></dataset></eml:eml>", "<p/>",
                           "<abstract><para>Some <emphasis>bold <subscript>x</subscript></emphasis> tail</para></abstract>"])
@@ -156,13 +177,17 @@ def step(w, ri, tg):
         # the referenced element may have nothing below it (an empty element carrying only an id)
         src_kids = [] if rng.random() < 0.3 else [impl.T("individualName", None, [impl.T("surName", "x")])]
         src = impl.build(impl.T("creator", None if src_kids or rng.random() < 0.5 else "text only", src_kids, [["id", "c1"]]))
-        dst = impl.build(impl.T("contact", None, [impl.T("references", "c1")]))
+        # the referencing element may have other children around the references node (they stay where they are)
+        pre_ = [impl.T("positionName", "before")] if rng.random() < 0.3 else []
+        post_ = [impl.T("onlineUrl", "http://a.b/c")] if rng.random() < 0.3 else []
+        dst = impl.build(impl.T("contact", None, pre_ + [impl.T("references", "c1")] + post_))
         ds = Node("dataset"); ds.add_child(src); ds.add_child(dst)
         if rng.random() < 0.4:
             # a references node that has nodes below it (a stray element in an imported document): expansion discards the whole subtree
-            stray = Node("zzStray", content="x"); dst.children[0].add_child(stray); stray.add_child(Node("zzDeeper"))
+            ref_ = [c for c in dst.children if c.name == "references"][0]
+            stray = Node("zzStray", content="x"); ref_.add_child(stray); stray.add_child(Node("zzDeeper"))
         w.add_tree(ds)
-        ref = dst.children[0]
+        ref = [c for c in dst.children if c.name == "references"][0]
         before = set(Node.store.keys())
         references.expand(ds)
         w.forget_tree(ref)
@@ -203,6 +228,10 @@ def check(w):
     for n in w.all_nodes():
         if store.get(n.id) is not n:
             return f"node '{n.name}' is still part of a live tree but is not registered (a discarded node stayed attached, or a live one was unregistered)"
+    reachable = {n.id for n in w.all_nodes()}
+    lost = [k for k in exp if k not in reachable]
+    if lost:
+        return f"live node(s) {[exp[k].name for k in lost][:3]} were never discarded but are no longer part of any tree the history holds (dropped from their parent without being deleted)"
     ids = [n.id for n in w.all_nodes()]
     if len(ids) != len(set(ids)):
         return "two distinct live nodes carry the same id"
